@@ -34,24 +34,26 @@ import (
 	"verifharness/jar"
 	"verifharness/pe"
 	"verifharness/ps"
+	"verifharness/ziprw"
 )
 
 type genFunc func(w *bufio.Writer, seed uint64, tier string)
 
 // handlers: first token of an op line -> implementation runner
 var handlers = map[string]func([]string) string{
-	"C12": c12.Handle,
-	"C20": c20.Handle,
-	"PE":  pe.Handle,
-	"E2E": e2e.Handle,
-	"CMS": cms.Handle,
-	"MSI": c18.MsiHandle,
-	"JAR": jar.Handle,
-	"APK": apkb.Handle,
-	"CAB": cab.Handle,
-	"PS":  ps.Handle,
-	"C09": c09.Handle,
-	"C19": c19.Handle,
+	"C12":   c12.Handle,
+	"C20":   c20.Handle,
+	"PE":    pe.Handle,
+	"E2E":   e2e.Handle,
+	"CMS":   cms.Handle,
+	"MSI":   c18.MsiHandle,
+	"JAR":   jar.Handle,
+	"APK":   apkb.Handle,
+	"ZIPRW": ziprw.Handle,
+	"CAB":   cab.Handle,
+	"PS":    ps.Handle,
+	"C09":   c09.Handle,
+	"C19":   c19.Handle,
 }
 
 // gens: property -> generators whose ops make up its correspondence run
@@ -132,6 +134,9 @@ func init() {
 		}
 		if p == "C01" || p == "C08" {
 			gens[p] = append(gens[p], forProp(p, apkb.Gen))
+		}
+		if p == "C03" || p == "C08" {
+			gens[p] = append(gens[p], forProp(p, ziprw.Gen))
 		}
 		if p == "C01" || p == "C02" || p == "C03" || p == "C08" {
 			gens[p] = append(gens[p], forProp(p, e2e.Gen))
